@@ -15,13 +15,16 @@ def impl(case):
         # one collection object: queried, edited in place through the public interface, then asked every question of this case
         h = case["history"]
         live = cls._coll(h["gens"])
-        for name in h.get("warm", []):
-            try:
-                {"in": lambda: live.is_in(cls._coll(h["gens"][:1])), "space": lambda: live.get_space(),
-                 "sel": lambda: live.select_dependents(cls._coll(h["gens"][:1])), "eq": lambda: live.is_eq(cls._coll(h["gens"]))}[name]()
-            except Exception:  # noqa
-                pass
+        def warm():
+            for name in h.get("warm", []):
+                cur0 = [str(x) for x in live.get()]
+                try:
+                    {"in": lambda: live.is_in(cls._coll(cur0[:1])), "space": lambda: live.get_space(),
+                     "sel": lambda: live.select_dependents(cls._coll(cur0[:1])), "eq": lambda: live.is_eq(cls._coll(cur0))}[name]()
+                except Exception:  # noqa
+                    pass
         for st in h["steps"]:
+            warm()      # the object has answered a query immediately before every edit
             cls.apply_step(live, st)
         if [str(s) for s in live.get()] != g:
             return {"skip": "the edited collection does not hold the expected strings (C10)"}
@@ -101,9 +104,9 @@ def main():
     hbase = G.collections(ck.rng, 150 if ck.quick else 1500, 2, 5)
     hfinal = []
     for kind, n, g0 in hbase:
-        steps, cur = cls.gen_steps(ck.rng, n, g0, 1, 3)
+        steps, cur = cls.gen_steps(ck.rng, n, g0, 1, 3, expand=0.3 if n <= 4 else 0.0)
         if cur:
-            hfinal.append((n, g0, steps, cur))
+            hfinal.append((len(cur[0]), g0, steps, cur))
     hclos = ck.oracle(["closure %d %s" % (n, " ".join(cur)) for n, _, _, cur in hfinal])
     for (n, g0, steps, cur), c in zip(hfinal, hclos):
         cases.append({"n": n, "gens": cur, "query": queries(ck.rng, n, cur, c.split()), "space": n <= 3 and ck.rng.random() < 0.5,
